@@ -190,31 +190,10 @@ NOT_APPLICABLE = [
 def _lv(pid, text, note, **kw):
     LEVELS[pid] = dict(text=text, note=note, **kw)
 
-_lv("C02", "Decision kernel isRestartable/getBackoff for every policy string, exit code, restart count, max_restarts>=0, stop flag (solver-decided, full int ranges); plus the real restart loop of one process (4 scripted exits, policy x max x backoff, one stop request at any labelled instant, delay bound d) with launch/exit ground truth from a stub Commander and virtual time.",
-    "Stub Commander through the verif seam; virtual clock; preemption only at labelled yields/blocking ops; max_restarts>=0; seconds within 2^31.")
-_lv("C03", "The real runner (NewProjectRunner, Run, ShutDownProject, Process life cycle) on 2-process projects; ShutDownProject() made to arrive at every labelled life-cycle point of either process (choice) with delay bound d; oracle at return of the call and at quiescence.",
-    "Stub Commander reacting to the signal; N=2; preemption at labelled yields/blocking ops only; OS signals to the binary outside. Known finding: shutdown while Run() still registers processes.")
 _lv("C05", "Real runner on the chain a<-b<-c, all 9 combinations of the three unsatisfiable conditions, four failure modes of a, exit_on_skipped on/off, delay bound d: dependents never launched, Skipped with non-zero exit code, no hang, project code 1.",
     "Stub Commander; go-health scheduler stubbed (no check delivered); os.Stat stub for the bad directory; depth 3.")
-_lv("C06", "Decision kernel of the OS-level stop: (*CmdWrapper).Stop and SetCmdArgs for every signal value, parent_only, pid/pgid, Getpgid failure: effective signal, whole group (negative pgid) vs parent only, exactly one call; own process group requested.",
-    "syscall.Getpgid/Kill and os.Process.Signal are recording stubs; kernel semantics (process groups, descendants, signal delivery to the binary) are outside; counterexamples are not replayed natively (would signal arbitrary pids).",
-    technique="bounded symbolic execution of the real SSA with z3 (engine-only: no native replay for this harness)")
-_lv("C07", "validateNoCircularDependencies + validateDependencyIsEnabled against a Warshall reference for all 2^9 graphs over 3 names (+dangling edge; 2^16 over 4 names and all map orders in the thorough tier); GetDependenciesOrderNames for all DAGs x disabled/foreground markings x map orders: each runnable process once, dependencies first.",
-    "Project values built directly (YAML outside); replicas=1 on depended-upon processes.")
-_lv("C10", "ValidateAndSetDefaults for five full-range ints and the HTTP target strings (legal effective values, idempotent); healthCheckCompleted for thresholds [-1,4] over every outcome sequence of 6 checks and every stop instant: ok flag = outcome, fatal exactly at the threshold-th consecutive failure, silence after stop.",
-    "go-health scheduler replaced by its callback contract; probes themselves (HTTP/exec) not run.")
-_lv("C12", "runningProcessesReverseDependencies for every dependency relation over 3 names, every running subset and every map iteration order: table = exactly the running dependents.",
-    "Kernel level (L1); the assembled ordered shutdown is covered by C12's project harness where registered.")
-_lv("C13", "CalculateReplicaName for every replica count 1..128 (1..1100 thorough) and symbolic replica numbers i<j<n: bare name for n=1, otherwise distinct names of equal length with the expected prefix.",
-    "math.Log10 evaluated natively on the concrete count.")
-_lv("C14", "ProcessConfig.Compare on two configurations with symbolic launch-relevant settings, executable/arguments derived by the real AssignProcessExecutableAndArgs from command or entrypoint: Compare=true implies agreement on every launch-relevant field; reflexive.",
-    "reflect.DeepEqual modelled structurally; strings len<=3; one dependency, one env entry, two probes.")
 _lv("C15", "mergeSlice(toEnvVarMap,toEnvVarSlice) on base<=2 / override<=1 entries over keys {A,B} with every value over {'=','x'} up to length 2 (3 thorough): result equals last-wins lookup of override-else-base, byte for byte.",
     "mergo.Map on flat maps bound to its contract under symgo (real mergo natively); mergo's deep merge of ProcessConfig and YAML are outside (reduced scope).")
-_lv("C17", "getProcessEnvironment for symbolic inherited/global/per-process layers: own PC_PROC_NAME/PC_REPLICA_NUM win under exec's last-duplicate-wins, per-process > global > inherited for other keys.",
-    "os.Environ bound to the harness list; .env parsing and load-time expansion are covered only where registered.")
-_lv("C18", "GetLogRange for every buffer length 0..1100 and full-int64 offset/limit on an abstract buffer: never panics, returns exactly the clamped window (start and length).",
-    "Abstract backing store (only offset/len/cap tracked).")
 _lv("C19", "Every JSON handler of pc_api.go against a recording IProject with symbolic outcomes: right operation once with decoded parameters, 400/207/200 mapping, malformed body or non-numeric path parameter -> 400 without a call, never 5xx.",
     "gin.Context response/body methods stubbed under symgo (real gin test context natively); routing, HTTP, JSON and the client package outside (reduced scope).")
 
@@ -297,3 +276,33 @@ PROPS["C16"] = {
 }
 _lv("C16", "The post-merge loader pipeline (setDefaultShell, assignDefaultProcessValues, cloneReplicas, copyWorkingDirToProbes, renderTemplates, assignExecutableAndArgs, templater) run twice with independent symbolic map orders on a project with replicas in [0,3], launch timeout, namespace, one of 8 templated fields and global/local vars: defaults, replica names, per-replica rendering of every templated field, Vars[PC_REPLICA_NUM], and equality of the two runs.",
     "text/template and JSON marshalling are executed natively / as a snapshot intrinsic on concrete data; YAML decoding outside.")
+
+_lv("C02", 'Decision kernel isRestartable/getBackoff for every policy string, exit code, restart count, max_restarts>=0, stop flag (solver-decided, full ranges). Real restart loop of one process (4 scripted exits with run time 0/3 s, policy x max x backoff, one stop request at any labelled instant, delay bound d, virtual time): every relaunch justified by policy and exit code, within max_restarts, not before the back-off, never after a completed stop; restart count = relaunches. Project shutdown kept busy by a slow process: no relaunch of a restart-always worker that exits meanwhile.',
+    'Stub Commander through the verif seam; virtual clock; preemption at labelled yields/blocking ops; max_restarts>=0; seconds within 2^31.')
+
+_lv("C03", 'Real runner on 2-process projects: ShutDownProject() arrives at every labelled life-cycle point of either process (explicit choice) with delay bound d, and while a slow-dying process is already being stopped: at return nothing launched is alive and nothing is reported running; afterwards nothing is launched and Run() returns.',
+    'Stub Commander; N=2; preemption at labelled yields/blocking ops only; OS signals to the binary outside. Known finding: shutdown while Run() still registers processes.')
+
+_lv("C06", 'Decision kernel (*CmdWrapper).Stop/SetCmdArgs for every signal value, parent_only, pid/pgid, Getpgid failure. Escalation: real stopProcess/forceKillOnTimeout/doConfiguredStop/onProcessEnd on one process with virtual time for signal x timeout x parent_only x shutdown command (none/ok/fails/times out) x child ignores SIGTERM or not: configured signal first, SIGKILL only after the timeout with the child still alive or after a failed command, never otherwise; the command gets environment and working directory.',
+    'syscall.Getpgid/Kill, os.Process.Signal, the shutdown command and the Commander are stubs; kernel semantics (process groups, descendants, signal delivery to the binary) are outside; neither harness is replayed natively.', technique="bounded symbolic execution of the real SSA with z3 (engine-only: no native replay for these harnesses)")
+
+_lv("C07", 'validateNoCircularDependencies + validateDependencyIsEnabled against a Warshall reference for all graphs over 3 names (+dangling edge; 4 names and all map orders thorough); GetDependenciesOrderNames for all DAGs x disabled/foreground markings x map orders, also with a replicated dependency; selection (NewProjectRunner with requested processes / no-deps) for all DAGs x requested subsets x foreground markings x 1-2 replicas: enabled set = requested + closure, run order = exactly the startable ones.',
+    'Project values built directly (YAML outside); admitter/namespace filtering not encoded.')
+
+_lv("C10", "ValidateAndSetDefaults for full-range ints and HTTP target strings; healthCheckCompleted for thresholds [-1,4] over every outcome sequence of 6 checks and every stop instant; real Prober.Start/Stop against go-health's Start/Stop contract for stop before/after the initial delay; process coupling: every outcome sequence of 4 readiness checks x restart policy (Ready/Not Ready, one stop at the threshold, relaunch by policy, readiness forgotten); daemon + liveness: fatal result while launching or after launch, handled by the restart policy.",
+    'go-health scheduler replaced by its callback and Start/Stop contract (Lifecycle replays natively against the real one); HTTP/exec checkers not run; Coupling and Daemon are engine-only.')
+
+_lv("C12", 'runningProcessesReverseDependencies for every dependency relation over 3 names x running subset x map order; real ordered ShutDownProject on chain / fan-in / fan-out / diamond with every subset already completed and every termination latency mix: no stop signal while a dependent that was running at shutdown is alive, shutdown completes, unrelated processes are stopped concurrently (witness).',
+    'Stub Commander; N<=4.')
+
+_lv("C13", 'CalculateReplicaName for every count 1..128 (1..1100 thorough) and symbolic i<j<n; real ScaleProcess from 1-3 replicas (each running or already completed) to {-1,0,1,2,3,9,10,11} (two successive requests thorough): listed replicas, their state/info/log and rendered configuration equal a fresh load with replicas: n; survivors not restarted, removed terminated, added launched once, bystander untouched, n<1/unknown name rejected.',
+    'math.Log10 natively on the concrete count; loader pipeline executed for the reference; text/template natively; JSON snapshot intrinsic.')
+
+_lv("C14", 'ProcessConfig.Compare on two configurations with symbolic launch-relevant settings (executable/args derived by the real AssignProcessExecutableAndArgs): equal implies agreement on every launch-relevant field. Real UpdateProject: process a changed in one of 11 settings or unchanged, b kept or removed, c added or not, k untouched: configured set, status map, instances kept / relaunched once with the new configuration / terminated / launched.',
+    'reflect.DeepEqual modelled structurally; go-health stubbed; Update is engine-only.')
+
+_lv("C17", "getProcessEnvironment for symbolic inherited/global/per-process layers under exec's last-duplicate-wins; loadProjectFromFile with os.ExpandEnv interpreted from the standard library's SSA on 1-3 tokens from {literal, $$, $VX, ${VX}, ${VY}} with expansion on/off: expanded text = concatenation of the token images.",
+    'os.Environ/ReadFile/Getenv/godotenv/yaml.Unmarshal bound to stubs under symgo (natively the real file, environment and YAML decoder); .env parsing outside.')
+
+_lv("C18", 'GetLogRange for every length 0..1100 and full-int64 offset/limit on an abstract buffer; one Write from boundary states around the trimming point for symbolic size; subscription with any tail length after any number of 4 writes, unsubscribe at any point, concurrent writer (d=3): tail then every later line once, in order; websocket follower that never reads vs 300 writes.',
+    'Abstract backing store for Range; Stall is engine-only (known finding).')
